@@ -236,11 +236,15 @@ def explore_typed(ctx):
                     extra=False, abstract=None, define_init=True)
     spec = [dict(name='Mode', bases=[], registered=True, kind='enum', members=['true', 'false', 'on', 'yes']),
             plain('Job', [P('mode', ('cls', 'Mode')), P('retries', ('int',))]),
-            plain('Switch', [P('mode', ('bool',)), P('name', ('str',))])]
+            plain('Switch', [P('mode', ('bool',)), P('name', ('str',))]),
+            dict(name='Label', bases=[], registered=True, kind=rng.choice(['str', 'userstring', 'yatimlstring']))]
     anymap = ('map', 'dict', ('str',), ('any',))
     types = [('union', [('cls', 'Job'), anymap]), ('union', [anymap, ('cls', 'Job')]),
              ('union', [('cls', 'Job'), ('cls', 'Switch')]), ('seq', 'list', ('union', [('cls', 'Job'), anymap])),
-             anymap, ('any',), ('union', [('cls', 'Mode'), ('bool',)]), ('union', [('cls', 'Mode'), ('float',)])]
+             anymap, ('any',), ('union', [('cls', 'Mode'), ('bool',)]), ('union', [('cls', 'Mode'), ('float',)]),
+             ('union', [('bool',), ('cls', 'Label')]), ('union', [('cls', 'Label'), ('float',)]),
+             ('seq', 'list', ('union', [('bool',), ('cls', 'Label')])), ('cls', 'Label')]
+    keyed = ('map', 'dict', ('cls', 'Label'), ('int',))
     XS = ['true', 'True', 'TRUE', 'false', 'False', 'yes', 'on', 'off', 'no', 'y', 'Yes', '1', '1.5', '.5', '1e5',
           '.inf', '-.INF', '.nan', '1_000.5', '1:30.5', '~', 'null', 'trueish', '1.2.3', '+.1', '1.']
     S = G.S
@@ -253,6 +257,10 @@ def explore_typed(ctx):
                 docs = [('q', [d], None) for d in docs[:2]] + [('q', docs[2:], None)]
             if t[0] == 'union' and t[1][0] == ('cls', 'Mode') or t == ('any',):
                 docs = docs[:1] + [S(x)]
+            if ('cls', 'Label') in (t, ) + tuple(t[1] if t[0] == 'union' else ()):
+                docs = [S(x)]
+            if t[0] == 'seq' and t[2][0] == 'union' and ('cls', 'Label') in t[2][1]:
+                docs = [('q', [S(x), S('a')], None)]
             for d in docs:
                 try:
                     c = L.build_case(rng, yaml, yatiml, spec, t, d, ('typed-scalars',))
@@ -263,6 +271,17 @@ def explore_typed(ctx):
                 ctx.case(('typed', c.text, repr(t)), nontrivial=True)
                 ctx.count('typed_cases')
                 c02.judge(ctx, c, yaml, yatiml, 'typed-scalars')
+    # string-like keys spelt like booleans / floats
+    for x in XS:
+        try:
+            c = L.build_case(rng, yaml, yatiml, spec, keyed, ('m', [(S(x), S('1'))], None), ('typed-scalars',))
+            L.run_case(c, yaml)
+        except Exception as e:  # noqa
+            ctx.count('typed_build_error:' + type(e).__name__)
+            continue
+        ctx.case(('typed', c.text, repr(keyed)), nontrivial=True)
+        ctx.count('typed_cases')
+        c02.judge(ctx, c, yaml, yatiml, 'typed-scalars')
 
 
 def explore(ctx):
